@@ -32,3 +32,5 @@ CFG = dict(
              "the Go function c19Covers (8 lines) decides where the twin gets its annotation; a wrong reading would show as a spec failure, not hide one"],
     timeout=900,
 )
+
+CFG["rule"] += " In every C19M mux two more muxes are created between constructing the mux under test and registering on it (one with a decoy configuration '* -> POST /c19/decoy', one with none)."
